@@ -384,6 +384,87 @@ async def wide_responses(chk, rng, n):
         await a.finish()
 
 
+async def huge_row_then_failure(chk, rng, count):
+    """a row whose packet spans two frames (payload ≥ 0xFFFFFF: a full frame, then the rest — or an empty frame) followed by a
+    failing row source: the frames already written and the ones still buffered belong to ONE logical packet; the response
+    must still be metadata, that complete row, one ERR, and the next command is answered in step"""
+    from lib import Peer, RecSession, mkserver, parse_coldef, parse_eof, parse_err, rd_lenenc
+    from mysql_mimic import ResultColumn, ColumnType
+    M_ = 0xFFFFFF
+    for i in range(count):
+        L = [M_ - 4, M_ + 20, M_ - 4 + 1, 2 * M_ - 9][i % 4]
+        dep = bool(i % 2) if count > 1 else rng.random() < 0.5
+        fail = rng.choice(["source", "source", "kill"])
+
+        def beh(sess, e, sql, attrs, L=L):
+            async def ag():
+                yield ("r" * L,)
+                await sess.gate.wait() if fail == "kill" else None
+                raise RuntimeError("row source failure")
+            return ag(), [ResultColumn("c", ColumnType.VARCHAR)]
+        s = RecSession(beh)
+        s.gate = asyncio.Event()
+        srv = mkserver([s])
+        a = Peer(srv)
+        caps = BASE | (C.CLIENT_DEPRECATE_EOF if dep else 0)
+        await a.login(caps=caps)
+        a.take()
+        start = len(a.t.out)
+        a.t.feed(pkt(0, b"\x03select c from t"))
+        await settle(60)
+        if fail == "kill":
+            from mysql_mimic.constants import KillKind
+            await srv.control.kill(a.greeting["cid"], KillKind.QUERY)
+            await settle(60)
+        raw = bytes(a.t.out[start:])
+        a.take()                 # (advance the peer's read position past this response)
+        desc = dict(row_bytes=L, row_packet_payload=L + (9 if L >= 1 << 24 else 4), deprecate_eof=dep, ended_by=fail)
+        chk.case(("huge-row", L, dep, fail))
+        chk.count("huge-row-then-failure")
+        # frames → logical packets
+        frames, k = [], 0
+        while k + 4 <= len(raw):
+            ln = int.from_bytes(raw[k:k + 3], "little")
+            frames.append((raw[k + 3], raw[k + 4:k + 4 + ln], ln))
+            k += 4 + ln
+        try:
+            if k != len(raw) or any(len(p) != ln for _, p, ln in frames):
+                raise Bad("truncated frame at the end of the response")
+            if [q for q, _, _ in frames] != [(j + 1) % 256 for j in range(len(frames))]:
+                raise Bad("sequence ids %r" % [q for q, _, _ in frames][:8])
+            logical, cur = [], b""
+            for _, p, ln in frames:
+                cur += p
+                if ln < M_:
+                    logical.append(cur)
+                    cur = b""
+            if cur:
+                raise Bad("a full-size frame is not followed by its continuation")
+            want_n = 3 + (0 if dep else 1) + 1
+            if len(logical) != want_n:
+                raise Bad("%d logical packets, expected %d (count, definition%s, the row, ERR)" % (len(logical), want_n, "" if dep else ", EOF"))
+            if logical[0] != b"\x01":
+                raise Bad("column count")
+            parse_coldef(logical[1])
+            if not dep:
+                parse_eof(logical[2])
+            row = logical[-2]
+            n, off = rd_lenenc(row, 0)
+            if n != L or len(row) != off + L or row[off:off + 4] != b"rrrr" or row[-1:] != b"r":
+                raise Bad("the row packet is not the one length-encoded value of %d bytes (payload %d bytes, announces %d)" % (L, len(row), n))
+            if logical[-1][:1] != b"\xff":
+                raise Bad("last packet is not ERR")
+            parse_err(logical[-1])
+        except (Bad, IndexError, struct.error, ValueError) as e:
+            chk.fail("a response that fails right after a row spanning several frames is not one well-formed response", desc, str(e)[:300])
+            await a.finish()
+            continue
+        out = await a.cmd(b"\x0e")
+        if not (len(out) == 1 and out[0][0] == 1 and out[0][1][:1] == b"\x00"):
+            chk.fail("connection not in step after a failed response with a multi-frame row", desc, [(q, p[:8].hex()) for q, p in out][:3])
+        await a.finish()
+
+
 async def interrupted_streams(chk, rng, count, kill_only=False):
     """a response that is cut short while the client is not reading: the transport stops accepting data in the middle of a
     result set that is larger than the write buffer, the statement is ended from outside (KILL QUERY through the control, as
@@ -502,6 +583,7 @@ def main():
         for k in range(6 if not chk.thorough else 100):
             await run_program(chk, rng, lines, impl, big=True)
         await wide_responses(chk, rng, 12 if not chk.thorough else 200)
+        await huge_row_then_failure(chk, rng, 2 if not chk.thorough else 16)
         await interrupted_streams(chk, rng, 40 if not chk.thorough else 300)
 
     asyncio.run(go())
